@@ -31,5 +31,5 @@ def run(ctx):
         ["the image is produced by the harness (go/harness/fsck.go): a read-only walk of inode table, indirect blocks and directory blocks through obj.Log.Load, decoded by inode.Decode and dir.decodeDirEnt",
          "the layout functions are the ones regenerated from super/super.go; the set of blocks marked by formatting is a closed form proved equal to the format model of C15 (metaBlock_is_format_model)",
          "in images of concurrent histories every directory counts as possibly moved once a cross-directory RENAME succeeded (loosens only the '..' clause there)"],
-        pending=["block-level operation model (bmap/Shrink/AddName on the image) with WF as an inductive invariant"],
+        pending=["directory blocks (AddName / RemName) and the inode table on the tree view of M7 (files: bmap_ok, shrinkTo_ok, InoOK are proved); the bridge from M7 states to fsck images"],
         partial=["for all histories / crash points: sampled, not proved"])
